@@ -271,7 +271,9 @@ def run_cwd_cases(_):
             b" .../long/dir/name/file.txt | 3 ++-\n src/plain.rs | 1 +\n 4 files changed\n")
     for label, data, extra, meant_set in (
             ("quoted-name", quoted, [], {os.path.join(repo, 'src/\u00e4 "q".txt')}),
-            ("diffstat-not-a-path", stat, ["--relative-paths"], {os.path.join(repo, "src/plain.rs")})):
+            ("diffstat-not-a-path", stat, ["--relative-paths"], {os.path.join(repo, "src/plain.rs")}),
+            ("placeholder-in-name", b"diff --git a/tpl/{line}.txt b/tpl/{line}.txt\n--- a/tpl/{line}.txt\n+++ b/tpl/{line}.txt\n"
+                                    b"@@ -7 +7 @@\n-a\n+b\n", [], {os.path.join(repo, "tpl/{line}.txt")})):
         a = ["--no-gitconfig", "--paging=never", "--detect-dark-light=never", "--line-numbers", "--hyperlinks",
              "--hyperlinks-file-link-format=file://{path}", "--hyperlinks-commit-link-format=c://{commit}"] + extra
         p = subprocess.run([build.BIN] + a, input=data, env=env, cwd=repo, stdout=subprocess.PIPE, stderr=subprocess.PIPE, timeout=30)
